@@ -125,3 +125,23 @@ func vids(ms []*Message) []string {
 	}
 	return r
 }
+
+// VerifScan runs one pass of the queue-scan worker body on a channel with clock reading t.
+func VerifScan(c *Channel, t int64) (bool, bool) {
+	return c.processInFlightQueue(t), c.processDeferredQueue(t)
+}
+
+// VerifChannelSnapshot returns the sizes of the channel's structures:
+// in-flight map, in-flight heap, deferred map, deferred heap, memory queue.
+func VerifChannelSnapshot(c *Channel) (int, int, int, int, int) {
+	c.inFlightMutex.Lock()
+	a, b := len(c.inFlightMessages), len(c.inFlightPQ)
+	c.inFlightMutex.Unlock()
+	c.deferredMutex.Lock()
+	d, e := len(c.deferredMessages), len(c.deferredPQ)
+	c.deferredMutex.Unlock()
+	return a, b, d, e, len(c.memoryMsgChan)
+}
+
+// VerifName returns the instance name the hooks use for a channel.
+func VerifName(c *Channel) string { return vc(c) }
